@@ -143,7 +143,9 @@ class Check:
         return res
 
     # ---------------------------------------------------------------- step 4
-    def build_harness(self, profile="release", timeout=3000):
+    def build_harness(self, profile="release", timeout=3000, rustflags=None, target_dir=None):
+        """cargo build of the harness against /repo's working tree. With rustflags/target_dir a build
+        flavour (e.g. -C target-feature=+avx2) goes to its own target directory under harness/."""
         with Lock("cargo"):
             for f in ("Cargo.lock", "rust-toolchain"):
                 src = os.path.join(REPO, f)
@@ -152,11 +154,18 @@ class Check:
                     if not os.path.exists(dst) or open(src, "rb").read() != open(dst, "rb").read():
                         open(dst, "wb").write(open(src, "rb").read())
             cmd = ["cargo", "build", "--offline"] + (["--release"] if profile == "release" else [])
-            rc, out, dt = run(cmd, cwd=HARNESS, timeout=timeout)
+            env = dict(ENV)
+            tdir = os.path.join(HARNESS, "target")
+            if rustflags:
+                env["RUSTFLAGS"] = rustflags
+            if target_dir:
+                tdir = os.path.join(HARNESS, target_dir)
+                env["CARGO_TARGET_DIR"] = tdir
+            rc, out, dt = run(cmd, cwd=HARNESS, timeout=timeout, env=env)
         if rc != 0:
-            self.broken.append("harness build failed (%s): %s" % (profile, tail(out, 12)))
+            self.broken.append("harness build failed (%s%s): %s" % (profile, " " + rustflags if rustflags else "", tail(out, 12)))
             return None
-        return os.path.join(HARNESS, "target", profile if profile == "release" else "debug", "verif_harness")
+        return os.path.join(tdir, profile if profile == "release" else "debug", "verif_harness")
 
     def run_harness(self, binary, prop, outfile, extra=(), timeout=3000, env=None):
         e = dict(ENV)
